@@ -180,3 +180,32 @@ Proof.
     - rewrite !app_length, orphan_ops_length. lia. }
   intro s. rewrite <- (Hnew s). unfold visible. rewrite !Hpt. reflexivity.
 Qed.
+
+(** with the orphan removal phase: every removal of a file under a name the loader reads still follows every install
+    rename — except the removals of the orphan phase itself, which only remove sidecars without shard (invisible) *)
+Lemma orphan_ops_no_install po pf o : In o (orphan_ops po pf) -> is_install_rename o = false.
+Proof. unfold orphan_ops. intro H. apply in_map_iff in H. destruct H as (n & E & _). subst o. reflexivity. Qed.
+
+Lemma deletes_after_renames_orphans b po pf ro dl rf df tf i j o1 o2 :
+  (forall a, In a ro -> In a (artifacts b)) ->
+  nth_error (finish_ops_o b po pf ro dl rf df tf) i = Some o1 -> is_removal o1 = true ->
+  nth_error (finish_ops_o b po pf ro dl rf df tf) j = Some o2 -> is_install_rename o2 = true ->
+  j < i \/ In o1 (orphan_ops po pf).
+Proof.
+  intros Hsub H1 Hr H2 Hi. unfold finish_ops_o in *.
+  set (P := orphan_ops po pf) in *. set (R := rename_ops ro rf) in *.
+  set (D := if existsb pf po || existsb rf ro then [] else delete_ops b dl df tf) in *.
+  destruct (le_lt_dec (length P) i) as [HiP|HiP].
+  2:{ right. rewrite nth_error_app1 in H1 by exact HiP. eapply nth_error_In; exact H1. }
+  left.
+  destruct (le_lt_dec (length P) j) as [HjP|HjP].
+  2:{ rewrite nth_error_app1 in H2 by exact HjP. apply nth_error_In in H2. apply orphan_ops_no_install in H2. congruence. }
+  rewrite nth_error_app2 in H1 by exact HiP. rewrite nth_error_app2 in H2 by exact HjP.
+  destruct (le_lt_dec (length R) (j - length P)) as [Hj|Hj].
+  - rewrite nth_error_app2 in H2 by exact Hj. apply nth_error_In in H2. subst D.
+    destruct (existsb pf po || existsb rf ro); [contradiction|].
+    apply delete_ops_no_install in H2. congruence.
+  - destruct (le_lt_dec (length R) (i - length P)) as [Hi'|Hi']; [lia|].
+    rewrite nth_error_app1 in H1 by exact Hi'. apply nth_error_In in H1.
+    apply (rename_ops_no_removal b) in H1; [congruence | exact Hsub].
+Qed.
